@@ -1,6 +1,7 @@
 package task
 
 import (
+	"fmt"
 	"slices"
 
 	"github.com/go-task/task/v3/errors"
@@ -49,6 +50,11 @@ func (e *Executor) areTaskRequiredVarsAllowedValuesSet(t *ast.Task) error {
 		varValue, _ := t.Vars.Get(requiredVar.Name)
 
 		value, isString := varValue.Value.(string)
+		// A value that is not a string (vars: {N: 3}) is compared by its text,
+		// like it is rendered in templates, instead of escaping the check
+		if !isString && varValue.Value != nil {
+			value, isString = fmt.Sprint(varValue.Value), true
+		}
 		if isString && requiredVar.Enum != nil && !slices.Contains(requiredVar.Enum, value) {
 			notAllowedValuesVars = append(notAllowedValuesVars, errors.NotAllowedVar{
 				Value: value,
